@@ -19,19 +19,19 @@
    * Rules about functions taking [ops] are stated INSIDE [Section RelPrim] and ALL of them take [cap cap_ge] as
      their first two arguments after the section closes: [apply (rwp_skip_blank cap cap_ge)].
    * WARNING: never run [congruence] / [f_equal] on an equation between two [sc] records (16 fields): it takes
-     MINUTES.  Use [rel_skel] / [rel_eq] / [sr_sync] below (rewriting with the 15 field equalities, then
+     MINUTES.  Use [rel_skel] / [rel_eq] / [sr_sync] below (rewriting with the 14 field equalities, then
      [reflexivity]); [congruence] on equations between [rem1]/[bl2]/[erase] VARIABLES is fine.
 
    Tactics (exported):
      rel_skel      closes [SR (f s1) (f s2)] when [SR s1 s2] is a hypothesis and [f] is the same composition of the
-                   setters set_mark set_tokens set_ska set_lws set_fms set_adj set_ta set_ss set_se set_sks
+                   setters set_mark set_tokens set_ska set_lws set_adj set_ta set_ss set_se set_sks
                    set_indent set_fl set_tp set_ifms (set_flags set_struct upd) on both sides; the values stored may
                    be built from the fields of [s1] resp. [s2] (e.g. [set_tokens (sc_tokens s ++ [t]) s],
                    [set_mark (adv n (sc_mark s)) s]).  A [match]/[let '(a,b) := ..] whose scrutinee is stuck must be
                    [destruct]ed first ([sr_sync H] makes the scrutinee the same term on both sides).
      rel_eq        closes [x1 = x2] where x2 is x1 with the skeleton fields of s1 replaced by those of s2
                    (e.g. [sc_mark s1 = sc_mark s2], [(0 <? sc_flow_level s1)%N = (0 <? sc_flow_level s2)%N]).
-     sr_fields H   H : SR s1 s2; adds the 15 field equalities [sc_X s1 = sc_X s2] to the context.
+     sr_fields H   H : SR s1 s2; adds the 14 field equalities [sc_X s1 = sc_X s2] to the context.
      sr_sync H     H : SR s1 s2; rewrites every skeleton field of s2 in the goal into the field of s1
                    (use after [apply rwp_bind. apply rwp_get. cbv beta.]: the two continuations then test the same
                    values and one [destruct] moves both sides).  [sr_fwd H] rewrites the other way round.
@@ -152,7 +152,7 @@ Lemma SR_fields s1 s2 : SR s1 s2 ->
   /\ sc_stream_end s1 = sc_stream_end s2 /\ sc_adjacent s1 = sc_adjacent s2 /\ sc_ska s1 = sc_ska s2
   /\ sc_sks s1 = sc_sks s2 /\ sc_indent s1 = sc_indent s2 /\ sc_indents s1 = sc_indents s2
   /\ sc_flow_level s1 = sc_flow_level s2 /\ sc_tokens_parsed s1 = sc_tokens_parsed s2
-  /\ sc_token_available s1 = sc_token_available s2 /\ sc_lws s1 = sc_lws s2 /\ sc_fms s1 = sc_fms s2
+  /\ sc_token_available s1 = sc_token_available s2 /\ sc_lws s1 = sc_lws s2
   /\ sc_ifms s1 = sc_ifms s2.
 Proof. intros H. apply erase_fields. apply SR_erase. exact H. Qed.
 
@@ -180,12 +180,10 @@ Lemma SR_token_available s1 s2 : SR s1 s2 -> sc_token_available s1 = sc_token_av
 Proof. intros H. apply SR_fields in H. tauto. Qed.
 Lemma SR_lws s1 s2 : SR s1 s2 -> sc_lws s1 = sc_lws s2.
 Proof. intros H. apply SR_fields in H. tauto. Qed.
-Lemma SR_fms s1 s2 : SR s1 s2 -> sc_fms s1 = sc_fms s2.
-Proof. intros H. apply SR_fields in H. tauto. Qed.
 Lemma SR_ifms s1 s2 : SR s1 s2 -> sc_ifms s1 = sc_ifms s2.
 Proof. intros H. apply SR_fields in H. tauto. Qed.
 
-(* [sr_fields H]: H : SR s1 s2; the 15 field equalities *)
+(* [sr_fields H]: H : SR s1 s2; the 14 field equalities *)
 Ltac sr_fields H :=
   let E := fresh "E" in
   pose proof (SR_fields _ _ H) as E; decompose [and] E; clear E.
@@ -195,12 +193,12 @@ Ltac sr_sync H :=
   rewrite <- ?(SR_mark _ _ H), <- ?(SR_tokens _ _ H), <- ?(SR_stream_start _ _ H), <- ?(SR_stream_end _ _ H),
           <- ?(SR_adjacent _ _ H), <- ?(SR_ska _ _ H), <- ?(SR_sks _ _ H), <- ?(SR_indent _ _ H),
           <- ?(SR_indents _ _ H), <- ?(SR_flow_level _ _ H), <- ?(SR_tokens_parsed _ _ H),
-          <- ?(SR_token_available _ _ H), <- ?(SR_lws _ _ H), <- ?(SR_fms _ _ H), <- ?(SR_ifms _ _ H).
+          <- ?(SR_token_available _ _ H), <- ?(SR_lws _ _ H), <- ?(SR_ifms _ _ H).
 
 Ltac skel_cbn :=
   cbn [sc_in sc_mark sc_tokens sc_stream_start sc_stream_end sc_adjacent sc_ska sc_sks sc_indent sc_indents
-       sc_flow_level sc_tokens_parsed sc_token_available sc_lws sc_fms sc_ifms
-       upd set_in set_mark set_tokens set_flags set_ska set_lws set_fms set_adj set_ta set_ss set_se
+       sc_flow_level sc_tokens_parsed sc_token_available sc_lws sc_ifms
+       upd set_in set_mark set_tokens set_flags set_ska set_lws set_adj set_ta set_ss set_se
        set_struct set_sks set_indent set_fl set_tp set_ifms].
 
 (* [sr_fwd H]: H : SR s1 s2; every skeleton field of s1 in the goal becomes the field of s2 *)
@@ -208,7 +206,7 @@ Ltac sr_fwd H :=
   rewrite ?(SR_mark _ _ H), ?(SR_tokens _ _ H), ?(SR_stream_start _ _ H), ?(SR_stream_end _ _ H),
           ?(SR_adjacent _ _ H), ?(SR_ska _ _ H), ?(SR_sks _ _ H), ?(SR_indent _ _ H),
           ?(SR_indents _ _ H), ?(SR_flow_level _ _ H), ?(SR_tokens_parsed _ _ H),
-          ?(SR_token_available _ _ H), ?(SR_lws _ _ H), ?(SR_fms _ _ H), ?(SR_ifms _ _ H).
+          ?(SR_token_available _ _ H), ?(SR_lws _ _ H), ?(SR_ifms _ _ H).
 
 (* [rel_eq]: x1 = x2, the same expression over the skeleton fields of two related states.
    (No [congruence]/[f_equal] on the 16-field record: it takes minutes.) *)
@@ -240,7 +238,7 @@ Definition with_in {I} (i : I) (u : sc unit) : sc I :=
      sc_stream_start := sc_stream_start u; sc_stream_end := sc_stream_end u; sc_adjacent := sc_adjacent u;
      sc_ska := sc_ska u; sc_sks := sc_sks u; sc_indent := sc_indent u; sc_indents := sc_indents u;
      sc_flow_level := sc_flow_level u; sc_tokens_parsed := sc_tokens_parsed u;
-     sc_token_available := sc_token_available u; sc_lws := sc_lws u; sc_fms := sc_fms u; sc_ifms := sc_ifms u |}.
+     sc_token_available := sc_token_available u; sc_lws := sc_lws u; sc_ifms := sc_ifms u |}.
 Lemma with_in_erase {I} (s : sc I) : s = with_in (sc_in s) (erase s).
 Proof. destruct s; reflexivity. Qed.
 (* last resort when [rel_skel] does not apply: after
@@ -475,9 +473,10 @@ Lemma rwp_end_implicit_mapping mk1 mk2 (Q : unit -> st1 -> unit -> st2 -> Prop) 
 Proof.
   intros HS <- HQ. unfold end_implicit_mapping. apply rwp_bind. apply rwp_get. cbv beta. sr_sync HS.
   assert (H0 : rwp (ret tt) (ret tt) Q s1 s2) by (apply rwp_ret; apply HQ; [exact HS|reflexivity|reflexivity]).
-  destruct (sc_ifms s1) as [|[|] r]; try exact H0.
-  apply rwp_bind. apply rwp_put_skel; [rel_skel|reflexivity|reflexivity|]. intros u1 u2 HU RU BU.
-  apply rwp_push_tok; [exact HU|reflexivity|]. intros t1 t2 HT RT BT. apply HQ; [exact HT|congruence|congruence].
+  destruct (sc_ifms s1) as [|[| | |] r]; try exact H0.
+  - apply rwp_bind. apply rwp_put_skel; [rel_skel|reflexivity|reflexivity|]. intros u1 u2 HU RU BU.
+    apply rwp_push_tok; [exact HU|reflexivity|]. intros t1 t2 HT RT BT. apply HQ; [exact HT|congruence|congruence].
+  - apply rwp_put_skel; [rel_skel|reflexivity|reflexivity|exact HQ].
 Qed.
 
 (* increase_flow_level: the same error (site 45) or the same push *)
